@@ -170,9 +170,11 @@ impl Sm2PublicKey {
     pub fn from_hex_string(hex_str: &str) -> Result<Self, FromHexError> {
         let bytes = hex::decode(hex_str);
         match bytes {
-            Ok(b) => Ok(Self {
-                point: Point::from_byte(b.as_slice()).unwrap(),
-            }),
+            // the decoded bytes must be a valid encoding of a point on the curve
+            Ok(b) => match Self::new(b.as_slice()) {
+                Ok(pk) => Ok(pk),
+                Err(_) => Err(FromHexError::InvalidStringLength),
+            },
             Err(e) => Err(e),
         }
     }
